@@ -3511,6 +3511,20 @@ func (db *DatabaseCollectionWithUser) Purge(ctx context.Context, key string, nee
 		return err
 	}
 
+	// Clean up _sync and _globalSync (if present). Leave _vv and _mou since they are also shared by XDCR/Eventing.
+	xattrsToDelete := []string{base.SyncXattrName, base.GlobalXattrName}
+	// TODO: CBG-4796 - we currently need to determine a list of present xattrs before we delete to avoid differences
+	// between Rosmar and Couchbase Server implementations of DeleteWithXattrs and GetWithXattrs.
+	var presentXattrsToDelete []string
+	if rawBucketDoc != nil && rawBucketDoc.Xattrs != nil {
+		presentXattrsToDelete = base.KeysPresent(rawBucketDoc.Xattrs, xattrsToDelete)
+	}
+	if err := db.dataStore.DeleteWithXattrs(ctx, key, presentXattrsToDelete); err != nil {
+		return err
+	}
+
+	// Remove the attachment data only once the document itself is gone, so that a purge that fails leaves the
+	// document's attachments readable.
 	for attachmentID, attachmentNames := range attachments {
 		err = db.dataStore.Delete(ctx, attachmentID)
 		if err != nil {
@@ -3523,18 +3537,6 @@ func (db *DatabaseCollectionWithUser) Purge(ctx context.Context, key string, nee
 			})
 		}
 
-	}
-
-	// Clean up _sync and _globalSync (if present). Leave _vv and _mou since they are also shared by XDCR/Eventing.
-	xattrsToDelete := []string{base.SyncXattrName, base.GlobalXattrName}
-	// TODO: CBG-4796 - we currently need to determine a list of present xattrs before we delete to avoid differences
-	// between Rosmar and Couchbase Server implementations of DeleteWithXattrs and GetWithXattrs.
-	var presentXattrsToDelete []string
-	if rawBucketDoc != nil && rawBucketDoc.Xattrs != nil {
-		presentXattrsToDelete = base.KeysPresent(rawBucketDoc.Xattrs, xattrsToDelete)
-	}
-	if err := db.dataStore.DeleteWithXattrs(ctx, key, presentXattrsToDelete); err != nil {
-		return err
 	}
 	if needsAudit {
 		base.Audit(ctx, base.AuditIDDocumentDelete, base.AuditFields{
